@@ -435,10 +435,19 @@ func (e *Engine) invokeValue(st *State, f Value, args []Value, onRet func(*State
 	if fv.fn == nil && fv.builtin == "" {
 		panic(goPanic{site: "call of nil function"})
 	}
+	if fv.builtin == "noop" {
+		if onRet != nil {
+			onRet(st, nil)
+		}
+		return
+	}
 	if fv.builtin != "" {
 		panic(unsupported("deferred/indirect builtin " + fv.builtin))
 	}
 	if r, handled := e.tryModel(st, fv.fn, args, onRet); handled {
+		if _, isPending := r.(pending); isPending {
+			panic(unsupported("deferred call of a model that calls back"))
+		}
 		if onRet != nil {
 			onRet(st, r)
 		}
@@ -508,6 +517,10 @@ func (e *Engine) doCall(st *State, fr *Frame, instr *ssa.Call, c *ssa.CallCommon
 		default:
 			fv := e.get(st, fr, c.Value).(FuncV)
 			if fv.fn == nil {
+				if fv.builtin == "noop" {
+					fr.ip++
+					return
+				}
 				if fv.builtin != "" {
 					panic(unsupported("indirect builtin call"))
 				}
@@ -535,18 +548,9 @@ func (e *Engine) doCall(st *State, fr *Frame, instr *ssa.Call, c *ssa.CallCommon
 		fr.ip++
 		return
 	}
-	nframes := len(st.frames)
 	if r, handled := e.tryModel(st, fn, args, nil); handled {
-		if len(st.frames) != nframes {
-			// model pushed a frame; its onReturn writes the result
-			top := st.top()
-			prevOn := top.onReturn
-			top.onReturn = func(st *State, rv Value) {
-				if prevOn != nil {
-					prevOn(st, rv)
-				}
-			}
-			return
+		if _, isPending := r.(pending); isPending {
+			return // the model pushed a frame whose continuation delivers the result
 		}
 		if instr != nil && r != nil {
 			e.set(fr, instr, r)
